@@ -9,105 +9,131 @@ Definition cfg_ttl0 := mkcfg None (Some 0) false false 3.     (* unbounded, ttl 
 Definition cfg_m1_ck := mkcfg (Some 1) None true false 3.     (* maxsize = 1, always_checkpoint *)
 Definition cfg_m0 := mkcfg (Some 0) None false false 3.       (* maxsize = 0 *)
 
+(* Every witness below states the WHOLE flag set of its history: exactly one finding pattern occurs, all other
+   predicates are false, and one of the conditional clauses fails.  only_* = the flag set with that one flag. *)
+Definition only_inflight := mkfl true false false false false false.
+Definition only_waited := mkfl false true false false false false.
+Definition only_uncounted := mkfl false false true false false false.
+Definition only_dead := mkfl false false false true false false.
+Definition only_phantom := mkfl false false false false true false.
+Definition only_bypass2 := mkfl false false false false false true.
+
 (* ---------------------------------------------------------------------------------------------- F3 *)
 (* F3(a): caller 2's miss on key 1 evicts the in-flight placeholder of key 0, the computation of key 0 fails,
-   the waiter re-reads the entry: KeyError *)
+   the waiter re-reads the entry: KeyError (C20_no_internal_error without no_inflight_eviction) *)
 Definition w_f3_keyerror := [Call 0 0; Call 1 0; Call 2 2; WrappedRaises 0 0; Resume 0].
 Theorem lru_refuted_keyerror :
-  exists cf ops o, evicts_inflight cf (ops ++ [o]) = true /\ snd (step cf (run cf ops) o) = RKeyError.
+  exists cf ops o, fl (run cf (ops ++ [o])) = only_inflight /\ snd (step cf (run cf ops) o) = RKeyError.
 Proof. exists cfg_m1, w_f3_keyerror, (Resume 1). vm_compute. auto. Qed.
 
-(* F3(b): the evicted in-flight computation and the evicting one both complete: two results with maxsize = 1 *)
+(* F3(b): the evicted in-flight computation and the evicting one both complete: two results with maxsize = 1
+   (C20_bounded without no_inflight_eviction) *)
 Definition w_f3_exceeds :=
   [Call 0 0; Call 2 2; WrappedReturns 0 1; Resume 0; WrappedReturns 2 2; Resume 2].
 Theorem lru_refuted_exceeds :
-  exists cf ops m, maxsize cf = Some m /\ evicts_inflight cf ops = true /\
+  exists cf ops m, maxsize cf = Some m /\ fl (run cf ops) = only_inflight /\
     m < length (filter (fun x => negb (is_place (se x))) (dict (run cf ops))).
 Proof. exists cfg_m1, w_f3_exceeds, 1. vm_compute. auto. Qed.
 
-(* F3(c): after a failed computation the next caller's miss evicts its own (held) placeholder and a third caller
-   installs a new one: two executions for key 0 at the same time *)
-Definition w_f3_double_flight := [Call 0 0; WrappedRaises 0 0; Resume 0; Call 1 0; Call 2 0].
+(* F3(c): the in-flight placeholder of key 0 is evicted by the miss on key 1; a third caller of key 0 finds no
+   entry, installs a new placeholder and runs: two executions for key 0 (C20_single_flight without
+   no_inflight_eviction) *)
+Definition w_f3_double_flight := [Call 0 0; Call 1 2; Call 2 0].
 Theorem lru_refuted_double_flight :
-  exists cf ops c1 c2 k, maxsize_pos cf /\ evicts_inflight cf ops = true /\ c1 <> c2 /\
-    executing (run cf ops) c1 k /\ executing (run cf ops) c2 k.
+  exists cf ops c1 c2 k l1 l2 g, fl (run cf ops) = only_inflight /\ c1 <> c2 /\
+    phase (run cf ops) c1 = CInWrapped k l1 None false g /\ phase (run cf ops) c2 = CInWrapped k l2 None false g.
 Proof.
-  exists cfg_m1, w_f3_double_flight, 1, 2, 0. vm_compute.
-  refine (conj eq_refl (conj eq_refl (conj _ (conj _ _)))); [discriminate|left|left]; repeat eexists.
+  exists cfg_m1, w_f3_double_flight, 0, 2, 0, 0, 2, 0. vm_compute.
+  refine (conj eq_refl (conj _ (conj eq_refl eq_refl))). discriminate.
 Qed.
 
 (* ---------------------------------------------------------------------------------------------- F8 *)
 (* F8(a): no placeholder is ever evicted, but the completed value of key 0 is evicted while waiter 1 has been
-   handed the entry's lock: KeyError *)
+   handed the entry's lock: KeyError (C20_no_internal_error without no_waited_eviction) *)
 Definition w_f8_keyerror := [Call 0 0; Call 1 0; WrappedReturns 0 7; Resume 0; Call 2 2].
 Theorem lru_refuted_keyerror_waited :
-  exists cf ops o, evicts_inflight cf (ops ++ [o]) = false /\ evicts_waited cf (ops ++ [o]) = true /\
-    snd (step cf (run cf ops) o) = RKeyError.
+  exists cf ops o, fl (run cf (ops ++ [o])) = only_waited /\ snd (step cf (run cf ops) o) = RKeyError.
 Proof. exists cfg_m1, w_f8_keyerror, (Resume 1). vm_compute. auto. Qed.
 
-(* F8(b): ... and caller 0 installs a new placeholder (new lock) before the waiter runs: two executions *)
+(* F8(b): ... and caller 0 installs a new placeholder (new lock) before the waiter runs: two executions
+   (C20_single_flight without no_waited_eviction) *)
 Definition w_f8_double_flight :=
   [Call 0 0; Call 1 0; WrappedReturns 0 1; Resume 0; Call 2 2; WrappedReturns 2 2; Resume 2;
    Call 2 4; WrappedReturns 2 3; Resume 2; Call 0 0; Resume 1].
 Theorem lru_refuted_double_flight_waited :
-  exists cf ops c1 c2 k, maxsize_pos cf /\ evicts_inflight cf ops = false /\ evicts_waited cf ops = true /\
-    stale_count_other_loop cf ops = false /\ c1 <> c2 /\
-    executing (run cf ops) c1 k /\ executing (run cf ops) c2 k.
+  exists cf ops c1 c2 k l1 l2 g, fl (run cf ops) = only_waited /\ c1 <> c2 /\
+    phase (run cf ops) c1 = CInWrapped k l1 None false g /\ phase (run cf ops) c2 = CInWrapped k l2 None false g.
 Proof.
-  exists cfg_m2, w_f8_double_flight, 0, 1, 0. vm_compute.
-  refine (conj eq_refl (conj eq_refl (conj eq_refl (conj eq_refl (conj _ (conj _ _))))));
-    [discriminate|left|left]; repeat eexists.
+  exists cfg_m2, w_f8_double_flight, 0, 1, 0, 3, 0, 0. vm_compute.
+  refine (conj eq_refl (conj _ (conj eq_refl eq_refl))). discriminate.
 Qed.
 
 (* F8(c): the value expires between the hand-off and the waiter's resumption; a third caller replaces it by a
-   placeholder with a new lock: two executions *)
+   placeholder with a new lock: two executions, unbounded cache *)
 Definition w_f8_ttl := [Call 0 0; Call 1 0; WrappedReturns 0 1; Resume 0; Call 2 0; Resume 1].
 Theorem lru_refuted_double_flight_ttl :
-  exists cf ops c1 c2 k, maxsize cf = None /\ evicts_inflight cf ops = false /\ evicts_waited cf ops = true /\
-    c1 <> c2 /\ executing (run cf ops) c1 k /\ executing (run cf ops) c2 k.
+  exists cf ops c1 c2 k l1 l2 g, maxsize cf = None /\ fl (run cf ops) = only_waited /\ c1 <> c2 /\
+    phase (run cf ops) c1 = CInWrapped k l1 None false g /\ phase (run cf ops) c2 = CInWrapped k l2 None false g.
 Proof.
-  exists cfg_ttl0, w_f8_ttl, 2, 1, 0. vm_compute.
-  refine (conj eq_refl (conj eq_refl (conj eq_refl (conj _ (conj _ _))))); [discriminate|left|left]; repeat eexists.
+  exists cfg_ttl0, w_f8_ttl, 2, 1, 0, 1, 0, 0. vm_compute.
+  refine (conj eq_refl (conj eq_refl (conj _ (conj eq_refl eq_refl)))). discriminate.
 Qed.
 
 (* ---------------------------------------------------------------------------------------------- F30 *)
-(* F30: after loop 1 filled the cache (maxsize = 1) a new loop starts with an empty dict but currsize = 1: every
-   miss pops its own placeholder and two callers of the same key both run *)
+(* F30, isolated: cache_clear() while caller 0 computes key 0; caller 1 calls key 0 in the fresh dict: two
+   executions for key 0, nothing is ever evicted (C20_single_flight without no_other_loop) *)
+Definition w_f30_clear := [Call 0 0; Clear; Call 1 0].
+Theorem lru_refuted_clear_double_flight :
+  exists cf ops c1 c2 k l1 l2 g1 g2, fl (run cf ops) = only_phantom /\ c1 <> c2 /\
+    phase (run cf ops) c1 = CInWrapped k l1 None false g1 /\ phase (run cf ops) c2 = CInWrapped k l2 None false g2.
+Proof.
+  exists cfg_m1, w_f30_clear, 0, 1, 0, 0, 1, 0, 1. vm_compute.
+  refine (conj eq_refl (conj _ (conj eq_refl eq_refl))). discriminate.
+Qed.
+
+(* F30, isolated: after loop 1 filled the cache (maxsize = 1) a new loop starts with an empty dict but
+   currsize = 1 (C20_count_exact without no_other_loop) *)
+Definition w_f30_new_loop := [Call 0 0; WrappedReturns 0 1; Resume 0; NewLoop].
+Theorem lru_refuted_other_loop_count :
+  exists cf ops, fl (run cf ops) = only_phantom /\ dict (run cf ops) = [] /\ currsize (run cf ops) = 1%Z.
+Proof. exists cfg_m1, w_f30_new_loop. vm_compute. auto. Qed.
+
+(* F30, consequences (these histories also contain the eviction of the callers' own placeholders, i.e. the F3
+   pattern): in the new loop every miss pops its own placeholder and two callers of the same key both run; the
+   same inside one loop after cache_clear() raced a flight *)
 Definition w_f30_other_loop := [Call 0 0; WrappedReturns 0 1; Resume 0; NewLoop; Call 0 2; Call 1 2].
 Theorem lru_refuted_other_loop :
-  exists cf ops c1 c2 k, maxsize_pos cf /\ stale_count_other_loop cf ops = true /\ evicts_waited cf ops = false /\
+  exists cf ops c1 c2 k, stale_count_other_loop cf ops = true /\ evicts_waited cf ops = false /\
     dead_placeholder_counted cf ops = false /\ uncounted_placeholder cf ops = false /\ c1 <> c2 /\
     executing (run cf ops) c1 k /\ executing (run cf ops) c2 k /\
+    fl (run cf (firstn 4 ops)) = only_phantom /\
     dict (run cf (firstn 4 ops)) = [] /\ currsize (run cf (firstn 4 ops)) = 1%Z.
 Proof.
   exists cfg_m1, w_f30_other_loop, 0, 1, 2. vm_compute.
-  refine (conj eq_refl (conj eq_refl (conj eq_refl (conj eq_refl (conj eq_refl (conj _ (conj _ (conj _ (conj eq_refl eq_refl)))))))));
+  refine (conj eq_refl (conj eq_refl (conj eq_refl (conj eq_refl (conj _ (conj _ (conj _ (conj eq_refl (conj eq_refl eq_refl)))))))));
     [discriminate|left|left]; repeat eexists.
 Qed.
 
-(* the same phantom count inside one loop: cache_clear() while caller 0 is computing and caller 1 is queued; caller
-   0 is cancelled, the waiter counts its computation against the discarded dict; afterwards the live dict is empty
-   with currsize = 1 and two callers of a fresh key both run *)
 Definition w_f30_clear_in_flight :=
   [Call 0 0; Call 1 0; Clear; CancelCaller 0; Resume 0; Resume 1; WrappedReturns 1 5; Resume 1; Call 0 4; Call 2 4].
 Theorem lru_refuted_clear_in_flight :
-  exists cf ops c1 c2 k, maxsize_pos cf /\ stale_count_other_loop cf ops = true /\ evicts_waited cf ops = false /\
+  exists cf ops c1 c2 k, stale_count_other_loop cf ops = true /\ evicts_waited cf ops = false /\
     c1 <> c2 /\ executing (run cf ops) c1 k /\ executing (run cf ops) c2 k /\
     dict (run cf (firstn 8 ops)) = [] /\ currsize (run cf (firstn 8 ops)) = 1%Z.
 Proof.
   exists cfg_m1, w_f30_clear_in_flight, 0, 2, 4. vm_compute.
-  refine (conj eq_refl (conj eq_refl (conj eq_refl (conj _ (conj _ (conj _ (conj eq_refl eq_refl)))))));
+  refine (conj eq_refl (conj eq_refl (conj _ (conj _ (conj _ (conj eq_refl eq_refl))))));
     [discriminate|left|left]; repeat eexists.
 Qed.
 
 (* ---------------------------------------------------------------------------------------------- F31 *)
 (* F31: a call issued in an already cancelled scope is aborted at the lock entry and leaves an uncounted
-   placeholder; a later miss evicts it instead of a result: two results with maxsize = 1, no concurrency at all *)
+   placeholder; a later miss evicts it instead of a result: two results with maxsize = 1, no concurrency at all
+   (C20_bounded without no_uncounted_eviction) *)
 Definition w_f31_scope :=
   [CallX 0 0; Resume 0; Call 1 2; WrappedReturns 1 1; Resume 1; Call 2 4; WrappedReturns 2 2; Resume 2].
 Theorem lru_refuted_uncounted_exceeds :
-  exists cf ops m, maxsize cf = Some m /\ evicts_inflight cf ops = false /\ evicts_waited cf ops = false /\
-    stale_count_other_loop cf ops = false /\ uncounted_placeholder cf ops = true /\
+  exists cf ops m, maxsize cf = Some m /\ fl (run cf ops) = only_uncounted /\
     m < length (filter (fun x => negb (is_place (se x))) (dict (run cf ops))) /\ currsize (run cf ops) = 1%Z.
 Proof. exists cfg_m1, w_f31_scope, 1. vm_compute. auto 8. Qed.
 
@@ -116,40 +142,35 @@ Definition w_f31_native :=
   [Call 0 0; CancelCaller 0; Resume 0; Call 1 2; Resume 1; WrappedReturns 1 1; Resume 1;
    Call 2 4; Resume 2; WrappedReturns 2 2; Resume 2].
 Theorem lru_refuted_uncounted_exceeds_native :
-  exists cf ops m, maxsize cf = Some m /\ evicts_inflight cf ops = false /\ uncounted_placeholder cf ops = true /\
+  exists cf ops m, maxsize cf = Some m /\ fl (run cf ops) = only_uncounted /\
     m < length (filter (fun x => negb (is_place (se x))) (dict (run cf ops))).
 Proof. exists cfg_m1_ck, w_f31_native, 1. vm_compute. auto. Qed.
 
 (* ---------------------------------------------------------------------------------------------- F32 *)
 (* F32: maxsize = 0 returns before any lock: two calls with the same key run at once *)
 Theorem lru_refuted_maxsize0_double_flight :
-  exists cf ops c1 c2 k, is_zero_max cf = true /\ maxsize0_no_single_flight cf ops = true /\
-    evicts_inflight cf ops = false /\ evicts_waited cf ops = false /\ stale_count_other_loop cf ops = false /\
-    c1 <> c2 /\ executing (run cf ops) c1 k /\ executing (run cf ops) c2 k.
+  exists cf ops c1 c2 k, is_zero_max cf = true /\ fl (run cf ops) = only_bypass2 /\ c1 <> c2 /\
+    phase (run cf ops) c1 = CBypass k None false /\ phase (run cf ops) c2 = CBypass k None false.
 Proof.
   exists cfg_m0, [Call 0 0; Call 1 0], 0, 1, 0. vm_compute.
-  refine (conj eq_refl (conj eq_refl (conj eq_refl (conj eq_refl (conj eq_refl (conj _ (conj _ _)))))));
-    [discriminate|right|right]; repeat eexists.
+  refine (conj eq_refl (conj eq_refl (conj _ (conj eq_refl eq_refl)))). discriminate.
 Qed.
 
 (* ---------------------------------------------------------------------------------------------- F41 *)
 (* F41: a failed computation leaves its placeholder counted; the retry counts the key a second time; with
    maxsize = 2 the cache is then "full" with ONE result, and the next key evicts it: after the evicting step the dict
-   holds one counted entry (cf. lru_evicts_only_when_full) *)
+   holds one counted entry (C20_evicts_only_when_full and C20_count_exact without no_dead_placeholder) *)
 Definition w_f41 := [Call 0 0; WrappedRaises 0 0; Resume 0; Call 0 0; WrappedReturns 0 1; Resume 0].
 Theorem lru_refuted_dead_placeholder :
-  exists cf ops o key m, maxsize cf = Some m /\
-    evicts_inflight cf (ops ++ [o]) = false /\ evicts_waited cf (ops ++ [o]) = false /\
-    uncounted_placeholder cf (ops ++ [o]) = false /\ stale_count_other_loop cf (ops ++ [o]) = false /\
-    dead_placeholder_counted cf (ops ++ [o]) = true /\ o <> Clear /\ o <> NewLoop /\
+  exists cf ops o key m, maxsize cf = Some m /\ fl (run cf (ops ++ [o])) = only_dead /\
+    o <> Clear /\ o <> NewLoop /\
     In key (map sk (dict (run cf ops))) /\ ~ In key (map sk (dict (run cf (ops ++ [o])))) /\
     length (filter (fun x => negb (is_place (se x))) (dict (run cf (ops ++ [o])))) +
     length (filter (fun x => match se x with EPlace _ true => true | _ => false end) (dict (run cf (ops ++ [o])))) < m /\
     currsize (run cf (ops ++ [o])) = Z.of_nat m.
 Proof.
   exists cfg_m2, w_f41, (Call 0 2), 0, 2. vm_compute.
-  refine (conj eq_refl (conj eq_refl (conj eq_refl (conj eq_refl (conj eq_refl (conj eq_refl
-          (conj _ (conj _ (conj _ (conj _ (conj _ eq_refl)))))))))));
+  refine (conj eq_refl (conj eq_refl (conj _ (conj _ (conj _ (conj _ (conj _ eq_refl)))))));
     [discriminate|discriminate|now left|intros [H|[]]; discriminate|lia].
 Qed.
 
